@@ -710,6 +710,21 @@ impl Rec {
     where
         R: vcf::variant::Record + ?Sized,
     {
+        let mut notes = Vec::new();
+        let rec = Self::from_variant_notes(header, r, &mut notes)?;
+        match notes.into_iter().next() {
+            Some(n) => Err(n),
+            None => Ok(rec),
+        }
+    }
+
+    /// As `from_variant`, but a `len()` that disagrees with the number of items `iter()` yields in
+    /// a per-sample vector is pushed to `notes` instead of ending the extraction (the values are
+    /// still compared; C10 reports the note after the remaining stages have run).
+    pub fn from_variant_notes<R>(header: &vcf::Header, r: &R, notes: &mut Vec<String>) -> Result<Rec, String>
+    where
+        R: vcf::variant::Record + ?Sized,
+    {
         use vcf::variant::record::{
             info::field::{Value as LV, value::Array as LA},
             samples::series::{Value as LSV, value::Array as LSA},
@@ -819,6 +834,7 @@ impl Rec {
         for x in sb.column_names(header).take(CAP) {
             format.push(x.map_err(|x| e("format", x))?.to_string());
         }
+        let notes_cell = std::cell::RefCell::new(Vec::<String>::new());
         let conv = |v: LSV<'_>| -> Result<Val, String> {
             Ok(match v {
                 LSV::Integer(n) => Val::Int(n),
@@ -837,7 +853,7 @@ impl Rec {
                     let out: Result<Vec<_>, _> = vs.iter().take(CAP).collect();
                     let out = out.map_err(|x| e("sample int array", x))?;
                     if out.len() != vs.len() {
-                        return Err(format!("sample array len()={} but iter yields {}", vs.len(), out.len()));
+                        notes_cell.borrow_mut().push(format!("sample array len()={} but iter yields {}", vs.len(), out.len()));
                     }
                     Val::IntA(out)
                 }
@@ -845,7 +861,7 @@ impl Rec {
                     let out: Result<Vec<_>, _> = vs.iter().take(CAP).collect();
                     let out = out.map_err(|x| e("sample float array", x))?;
                     if out.len() != vs.len() {
-                        return Err(format!("sample array len()={} but iter yields {}", vs.len(), out.len()));
+                        notes_cell.borrow_mut().push(format!("sample array len()={} but iter yields {}", vs.len(), out.len()));
                     }
                     Val::FloatA(out.into_iter().map(|x| x.map(f32::to_bits)).collect())
                 }
@@ -853,7 +869,7 @@ impl Rec {
                     let out: Result<Vec<_>, _> = vs.iter().take(CAP).collect();
                     let out = out.map_err(|x| e("sample char array", x))?;
                     if out.len() != vs.len() {
-                        return Err(format!("sample array len()={} but iter yields {}", vs.len(), out.len()));
+                        notes_cell.borrow_mut().push(format!("sample array len()={} but iter yields {}", vs.len(), out.len()));
                     }
                     Val::CharA(out)
                 }
@@ -861,7 +877,7 @@ impl Rec {
                     let out: Result<Vec<_>, _> = vs.iter().take(CAP).collect();
                     let out = out.map_err(|x| e("sample string array", x))?;
                     if out.len() != vs.len() {
-                        return Err(format!("sample array len()={} but iter yields {}", vs.len(), out.len()));
+                        notes_cell.borrow_mut().push(format!("sample array len()={} but iter yields {}", vs.len(), out.len()));
                     }
                     Val::StrA(out.into_iter().map(|x| x.map(|c| c.into_owned())).collect())
                 }
@@ -906,6 +922,7 @@ impl Rec {
         if n_series != format.len() {
             return Err(format!("series() yields {n_series} columns, column_names {}", format.len()));
         }
+        notes.extend(notes_cell.into_inner());
         Ok(Rec { chrom, pos, ids, refb, alts, qual, filters, info: info_v, format, samples })
     }
 
